@@ -3,6 +3,7 @@ package main
 import (
 	"fmt"
 	"go/ast"
+	"go/token"
 	"go/types"
 	"sort"
 	"strings"
@@ -330,17 +331,18 @@ func c19Run(r *Run) {
 	}
 }
 
-// c19Site: for every node type with evaluation methods, the closure of those methods over calls on
-// the same receiver assigns no receiver field whose type is a declaration (data.Property / data.Types).
-func c19Site(r *Run) {
-	npkg := r.pkg("node")
-	if npkg == nil {
-		return
-	}
+// evalFieldWrite is one assignment to a receiver field found in the closure of a node type's
+// evaluation methods (GetValue/SetValue/Call/GetZVal plus the methods they call on the same receiver).
+type evalFieldWrite struct {
+	typeName, field string
+	ftype           types.Type
+	pos             token.Pos
+}
+
+// evalClosureFieldWrites lists, per node type that has evaluation methods, the receiver-field
+// assignments reachable from them; the second result names every type examined.
+func evalClosureFieldWrites(npkg *packages.Package) ([]evalFieldWrite, map[string]token.Pos) {
 	info := npkg.TypesInfo
-	isDecl := func(t types.Type) bool {
-		return isNamed(t, modPath+"/data", "Property") || isNamed(t, modPath+"/data", "Types")
-	}
 	byRecv := map[string]map[string]*ast.FuncDecl{}
 	for _, fd := range funcDecls(npkg) {
 		if tn := recvTypeName(fd); tn != "" {
@@ -355,6 +357,8 @@ func c19Site(r *Run) {
 		tns = append(tns, tn)
 	}
 	sort.Strings(tns)
+	var out []evalFieldWrite
+	examined := map[string]token.Pos{}
 	for _, tn := range tns {
 		ms := byRecv[tn]
 		var work []*ast.FuncDecl
@@ -366,8 +370,8 @@ func c19Site(r *Run) {
 		if len(work) == 0 {
 			continue
 		}
+		examined[tn] = ms[firstKey(ms)].Pos()
 		seen := map[*ast.FuncDecl]bool{}
-		bad := false
 		for len(work) > 0 {
 			fd := work[0]
 			work = work[1:]
@@ -388,7 +392,12 @@ func c19Site(r *Run) {
 					}
 				case *ast.AssignStmt:
 					for _, l := range x.Lhs {
-						se, ok := ast.Unparen(l).(*ast.SelectorExpr)
+						// pe.f = …   or   pe.f[i] = …
+						base := ast.Unparen(l)
+						if ix, ok := base.(*ast.IndexExpr); ok {
+							base = ast.Unparen(ix.X)
+						}
+						se, ok := base.(*ast.SelectorExpr)
 						if !ok {
 							continue
 						}
@@ -396,17 +405,43 @@ func c19Site(r *Run) {
 						if !ok || info.Uses[id] != recv {
 							continue
 						}
-						if t := info.TypeOf(se); t != nil && isDecl(t) {
-							bad = true
-							r.bad("node.("+tn+")#remembers:"+se.Sel.Name, x.Pos(), "during evaluation the node stores a "+types.TypeString(t, func(p *types.Package) string { return p.Name() })+" in its own field "+se.Sel.Name+": the AST node is shared by every object that reaches this site, so one instantiation's declaration is later applied to another")
+						if t := info.TypeOf(se); t != nil {
+							out = append(out, evalFieldWrite{tn, se.Sel.Name, t, x.Pos()})
 						}
 					}
 				}
 				return true
 			})
 		}
-		if !bad {
-			r.ok("node.("+tn+")#stateless-site", ms[firstKey(ms)].Pos(), "evaluation methods keep no declaration in the node")
+	}
+	return out, examined
+}
+
+// c19Site: no node type stores a declaration (data.Property / data.Types) into itself during evaluation.
+func c19Site(r *Run) {
+	npkg := r.pkg("node")
+	if npkg == nil {
+		return
+	}
+	isDecl := func(t types.Type) bool {
+		return isNamed(t, modPath+"/data", "Property") || isNamed(t, modPath+"/data", "Types")
+	}
+	writes, examined := evalClosureFieldWrites(npkg)
+	bad := map[string]bool{}
+	for _, w := range writes {
+		if isDecl(w.ftype) {
+			bad[w.typeName] = true
+			r.bad("node.("+w.typeName+")#remembers:"+w.field, w.pos, "during evaluation the node stores a "+types.TypeString(w.ftype, func(p *types.Package) string { return p.Name() })+" in its own field "+w.field+": the AST node is shared by every object that reaches this site, so one instantiation's declaration is later applied to another")
+		}
+	}
+	tns := []string{}
+	for tn := range examined {
+		tns = append(tns, tn)
+	}
+	sort.Strings(tns)
+	for _, tn := range tns {
+		if !bad[tn] {
+			r.ok("node.("+tn+")#stateless-site", examined[tn], "evaluation methods keep no declaration in the node")
 		}
 	}
 }
